@@ -364,19 +364,29 @@ def gen_gap(rng, pr, lx, a, b, first=False, last=False):
     return _blanks(rng, pr)
 
 
+def _guard(gap, nxt):
+    """A token starting with '/' is never placed directly after the newline that ends a comment
+    run: the lexer (scnr2 0.5.2) then reports a wrong line for it and for everything after it
+    (KNOWN_FINDINGS C12 lexer-slash-after-comment-newline); that input shape lives in corpus/C12
+    only, so that the generated streams keep every other check sharp."""
+    if nxt.startswith("/") and gap.endswith("\n") and "/" in gap:
+        return gap + " "
+    return gap
+
+
 def layout(tokens, rng, profile, lx):
     """tokens: list of Tok -> text.  profile: name in PROFILES or a dict."""
     pr = PROFILES[profile] if isinstance(profile, str) else profile
     out = []
     if tokens:
-        out.append(gen_gap(rng, pr, lx, "", tokens[0].text, first=True))
+        out.append(_guard(gen_gap(rng, pr, lx, "", tokens[0].text, first=True), tokens[0].text))
     for i, t in enumerate(tokens):
         out.append(t.text)
         if t.gap is not None:
             out.append(t.gap)
             continue
         nxt = tokens[i + 1].text if i + 1 < len(tokens) else ""
-        g = gen_gap(rng, pr, lx, t.text, nxt, last=(nxt == ""))
+        g = _guard(gen_gap(rng, pr, lx, t.text, nxt, last=(nxt == "")), nxt)
         # a gap that ends in a block comment directly before the next token is always safe;
         # a gap that is empty was checked by need_sep; anything else contains whitespace
         out.append(g)
@@ -405,6 +415,7 @@ class _Gen:
         self.out = []
         self.mod_names = []
         self.uid = 0
+        self.n_for = 0
 
     def e(self, *texts, tag=None):
         for t in texts:
@@ -497,6 +508,7 @@ class _Gen:
 
     def for_head(self, var, hi):
         r = self.rng
+        self.n_for += 1
         self.e("for", var)
         if self.old_for:
             self.e(":", tag="for_type")
@@ -517,10 +529,12 @@ class _Gen:
             self.e(v, "=")
             self.expr(rd, 2)
             self.e(";")
-        for _ in range(r.randint(0, 3)):
+        for _ in range(r.randint(1 if (self.old_for and self.n_for == 0) else 0, 3)):
             if not wr:
                 break
             k = r.randrange(5)
+            if self.old_for and self.n_for == 0 and depth > 0:
+                k = 3          # an old-grammar program holds at least one for statement
             v = r.choice(wr)
             if k == 0 or depth <= 0:
                 self.e(v, r.choice(["=", "=", "+=", "|=", "&=", "^=", "<<=", "-="]))
